@@ -69,13 +69,21 @@ def composite_pieces():
     one = [_inclass(FH, r'class OneArgFunction : public Function', sig, 'OneArgFunction::' + nm) for sig, nm in (
         (r'hash_t __hash__\(\) const override', '__hash__'), (r'RCP<const Basic> get_arg\(\) const', 'get_arg'),
         (r'bool __eq__\(const Basic &o\) const override', '__eq__'), (r'int compare\(const Basic &o\) const override', 'compare'))]
+    def RF(it):
+        return R(r'for \(const auto &a : (\w+)\)\s*\n\s*([^;{}]*;)', r'for (%s a__i = \1.begin(); a__i != \1.end(); ++a__i) { RCPBasic a = *a__i; \2 }' % it, n=1, regex=True,
+                 why="brace-less range-for over the argument container -> iterator loop over the stub, body verbatim")
+    multi = [_inclass(FH, r'class MultiArgFunction : public Function', sig, 'MultiArgFunction::' + nm) for sig, nm in (
+        (r'hash_t __hash__\(\) const override', '__hash__'), (r'const vec_basic &get_vec\(\) const', 'get_vec'),
+        (r'bool __eq__\(const Basic &o\) const override', '__eq__'), (r'int compare\(const Basic &o\) const override', 'compare'))]
+    multi[0].rules.append(RF('vecit'))
+    multi[1].rules.append(R('inline const vec_basic &get_vec() const', 'inline vec3 get_vec() const', n=1, why="returning const T& from a const member is mis-typed by the front end: by value (explicit copy constructor of the stub)"))
     comp = []
     for cls, f in (('Pow', 'pow.cpp'), ('Interval', 'sets.cpp')):
         comp.append(Piece('symengine/' + f, r'hash_t %s::__hash__\(\) const' % cls, rules=CTOK))
         comp.append(Piece('symengine/' + f, r'bool %s::__eq__\(const Basic &o\) const' % cls, rules=CTOK))
     comp.append(Piece('symengine/pow.cpp', r'int Pow::compare\(const Basic &o\) const', rules=CTOK))
     comp.append(Piece('symengine/sets.cpp', r'int Interval::compare\(const Basic &s\) const',
-                      rules=[R('auto temp = start_->__cmp__', 'int temp = start_->__cmp__', n=1, why="auto -> int (the return type of __cmp__)")] + CTOK))
+                      rules=[R(r'auto (\w+) = (\w+)->__cmp__', r'int \1 = \2->__cmp__', n='*', regex=True, why="auto -> int (the return type of __cmp__)")] + CTOK))
     for cls, f in (('Complement', 'sets.cpp'), ('Contains', 'logic.cpp')):
         comp.append(Piece('symengine/' + f, r'hash_t %s::__hash__\(\) const' % cls, rules=CTOK))
         comp.append(Piece('symengine/' + f, r'bool %s::__eq__\(const Basic &o\) const' % cls, rules=CTOK))
@@ -89,6 +97,9 @@ def composite_pieces():
     comp.append(Piece('symengine/add.cpp', r'int Add::compare\(const Basic &o\) const',
                       rules=[R('map_basic_num adict(dict_.begin(), dict_.end());', 'map_basic_basic adict; sorted_map(dict_, adict);', n=1, why="std::map range constructor -> its assumed contract (pairs sorted by the real RCPBasicKeyLess)"),
                              R('map_basic_num bdict(s.dict_.begin(), s.dict_.end());', 'map_basic_basic bdict; sorted_map(s.dict_, bdict);', n=1)] + CTOK))
+    comp.append(Piece('symengine/sets.cpp', r'hash_t FiniteSet::__hash__\(\) const', rules=[RF('setit')] + CTOK))
+    comp.append(Piece('symengine/sets.cpp', r'bool FiniteSet::__eq__\(const Basic &o\) const', rules=CTOK))
+    comp.append(Piece('symengine/sets.cpp', r'int FiniteSet::compare\(const Basic &o\) const', rules=CTOK))
     comp.append(Piece('symengine/mul.cpp', r'hash_t Mul::__hash__\(\) const',
                       rules=[R('for (const auto &p : dict_) {', 'for (mapit p__i = dict_.begin(); p__i != dict_.end(); ++p__i) { umap_pair p = *p__i;', n=1,
                                why="range-for over the ordered factor dictionary -> iterator loop over the stub, body verbatim")] + CTOK))
@@ -112,7 +123,7 @@ def composite_pieces():
                Piece('symengine/dict.h', ueq, rules=[R(ueq, 'inline bool unified_eq(const RCPBasic &a, const RCPBasic &b)', n=1, regex=True, why="SFINAE template header -> the instantiation T=U=Basic")], name='unified_eq<RCP>')]
     osig = r'template <class T>\s*inline int ordered_compare\(const T &A, const T &B\)'
     ordered = [Piece('symengine/dict.h', osig, rules=[R(r'template <class T>\s*inline int ordered_compare\(const T &A, const T &B\)', 'inline int ordered_compare(const vec3 &A, const vec3 &B)', n=1, regex=True, why="template header -> the instantiation for the vector stub"),
-                                                       R('auto a = A.begin();', 'RCPBasic *a = A.begin();', n=1, why="auto -> the iterator type (a pointer in the stub)"), R('auto b = B.begin();', 'RCPBasic *b = B.begin();', n=1),
+                                                       R('auto a = A.begin();', 'vecit a = A.begin();', n=1, why="auto -> the iterator type of the stub"), R('auto b = B.begin();', 'vecit b = B.begin();', n=1),
                                                        R('auto t = unified_compare', 'int t = unified_compare', n=1, why="auto -> int")], name='ordered_compare<vector>')]
     oeq = r'template <class T>\s*inline bool ordered_eq\(const T &A, const T &B\)'
     peq = r'template <typename T, typename U>\s*inline bool unified_eq\(const std::pair<T, U> &a, const std::pair<T, U> &b\)'
@@ -131,8 +142,24 @@ def composite_pieces():
         Piece('symengine/dict.h', meq, rules=[R(meq, 'inline bool unified_eq(const map_basic_basic &a, const map_basic_basic &b)', n=1, regex=True, why="template header -> the instantiation for map_basic_basic")], name='unified_eq<map>'),
         Piece('symengine/dict.h', mcmp, rules=[R(mcmp, 'inline int unified_compare(const map_basic_basic &a, const map_basic_basic &b)', n=1, regex=True, why="template header -> the instantiation for map_basic_basic")], name='unified_compare<map>'),
     ] + ordered
+    veq = r'template <typename T>\s*inline bool unified_eq\(const std::vector<T> &a, const std::vector<T> &b\)'
+    vcmp = r'template <typename T>\s*inline int unified_compare\(const std::vector<T> &a, const std::vector<T> &b\)'
+    seq = r'template <typename T, typename U>\s*inline bool unified_eq\(const std::set<T, U> &a, const std::set<T, U> &b\)'
+    scmp = r'template <typename T, typename U>\s*inline int unified_compare\(const std::set<T, U> &a, const std::set<T, U> &b\)'
+    def inst_eq(t):
+        it = 'vecit' if t == 'vec3' else 'setit'
+        return Piece('symengine/dict.h', oeq, rules=[R(oeq, 'inline bool ordered_eq(const %s &A, const %s &B)' % (t, t), n=1, regex=True, why="template header -> the instantiation for the %s stub" % t),
+                                                     R('auto a = A.begin();', '%s a = A.begin();' % it, n=1, why="auto -> the iterator type of the stub"), R('auto b = B.begin();', '%s b = B.begin();' % it, n=1)], name='ordered_eq<%s>' % t)
+    ordered = ordered + [inst_eq('vec3'), inst_eq('set3'),
+        Piece('symengine/dict.h', osig, rules=[R(osig, 'inline int ordered_compare(const set3 &A, const set3 &B)', n=1, regex=True, why="template header -> the instantiation for the set stub"),
+                                               R('auto a = A.begin();', 'setit a = A.begin();', n=1, why="auto -> the iterator type"), R('auto b = B.begin();', 'setit b = B.begin();', n=1),
+                                               R('auto t = unified_compare', 'int t = unified_compare', n=1, why="auto -> int")], name='ordered_compare<set>'),
+        Piece('symengine/dict.h', veq, rules=[R(veq, 'inline bool unified_eq(const vec3 &a, const vec3 &b)', n=1, regex=True, why="template header -> vec_basic stub")], name='unified_eq<vector>'),
+        Piece('symengine/dict.h', vcmp, rules=[R(vcmp, 'inline int unified_compare(const vec3 &a, const vec3 &b)', n=1, regex=True, why="template header -> vec_basic stub")], name='unified_compare<vector>'),
+        Piece('symengine/dict.h', seq, rules=[R(seq, 'inline bool unified_eq(const set3 &a, const set3 &b)', n=1, regex=True, why="template header -> set_basic stub")], name='unified_eq<set>'),
+        Piece('symengine/dict.h', scmp, rules=[R(scmp, 'inline int unified_compare(const set3 &a, const set3 &b)', n=1, regex=True, why="template header -> set_basic stub")], name='unified_compare<set>')]
     keyless = [Piece('symengine/basic.h', r'struct RCPBasicKeyLess \{', region_end=r'^\};', rules=CTOK, name='struct RCPBasicKeyLess')]
-    return {'ordered.inc': ordered, 'keyless.inc': keyless, 'unified.inc': unified, 'hc.inc': hc, 'hcb.inc': hcb, 'free.inc': free, 'twoarg_inline.inc': two, 'onearg_inline.inc': one, 'comp.inc': comp}
+    return {'ordered.inc': ordered, 'keyless.inc': keyless, 'unified.inc': unified, 'hc.inc': hc, 'hcb.inc': hcb, 'free.inc': free, 'twoarg_inline.inc': two, 'onearg_inline.inc': one, 'multiarg_inline.inc': multi, 'comp.inc': comp}
 
 COMP_TRUSTED = [
     "children of a composite are abstract objects obeying the contract C01/C02 state for every expression (eq <=> equal rank; equal rank => equal hash; __cmp__ = order of ranks)",
@@ -142,12 +169,18 @@ COMP_TRUSTED = [
 
 def composite_unit(prop, Unit, Entry):
     ents = []
-    for cls, nm in ((1, 'Pow'), (2, 'Interval'), (3, 'TwoArgBasic'), (4, 'OneArgFunction'), (5, 'Add'), (6, 'Complement'), (7, 'Contains'), (10, 'Mul')):
+    for cls, nm in ((1, 'Pow'), (2, 'Interval'), (3, 'TwoArgBasic'), (4, 'OneArgFunction'), (5, 'Add'), (6, 'Complement'), (7, 'Contains'), (10, 'Mul'), (11, 'MultiArgFunction'), (12, 'FiniteSet')):
         h = 'h_comp_c01' if prop == 'C01' else 'h_comp_c02'
         d = {'CLS': cls, 'CLSNAME': '"%s"' % nm}
         if prop == 'C02' and cls == 5:
             ents.append(Entry(h, defines=d, route='B', timeout=900, mem_gb=6, unwind=8, label="%s_%s" % (h, nm),
                               bounds="at most 2 terms in the dictionary (either iteration order); any children (6 abstract objects, any sharing, hash collisions allowed)"))
+            continue
+        if cls in (11, 12):
+            if prop == 'C01':
+                d['VERIF_HASH_BITS16'] = 1
+            ents.append(Entry(h, defines=d, route='B', timeout=900, mem_gb=6, unwind=8, label="%s_%s" % (h, nm),
+                              bounds=("hash_t narrowed to 16 bits; " if prop == 'C01' else "") + "containers of at most 3 elements; any children (6 abstract objects, any sharing)"))
             continue
         if cls == 10:
             # same 64-bit mixing problem as Add for C01 (five chained hash_combine calls per object): 16-bit hash_t; C02 does not hash
